@@ -12,6 +12,8 @@
 (*   notes : Seq(path rank)  NOTES.txt files present                       *)
 (*   subs  : Seq(chart)      subcharts present (charts/<name>/)            *)
 (*   crds  : Seq(chart)      charts that carry one file under crds/        *)
+(*   decl  : "none" | "fwd" | "rev"  whether (and in which order) the      *)
+(*           parent's Chart.yaml lists the subcharts under dependencies:   *)
 (*   subNotes, dns : BOOLEAN (Install.SubNotes, Install.EnableDNS)         *)
 (*   schema : "none" | "local" | "rel" | "file" | "http"  form of the $ref *)
 (*           in values.schema.json;  schemaAt : chart holding the schema   *)
@@ -182,6 +184,11 @@ ManEntry(inp, id, w)  == [p |-> id[1], i |-> id[2], v |-> DocPayload(inp, id, w)
 HookEntry(inp, id, w) == LET c == DocAt(inp, id).c IN
   [p |-> id[1], i |-> id[2], v |-> DocPayload(inp, id, w), ev |-> HookEv(c), w |-> HookW(c), pol |-> HookPol(c)]
 
+\* chartutil.ProcessDependencies (processDependencyEnabled): subcharts listed in Chart.yaml are re-added in
+\* the listed order (every subchart is listed or none is); unlisted ones stay in the order LoadFiles left
+DepsAfterProcess(inp, loadOrder) ==
+  CASE inp.decl = "fwd" -> inp.subs [] inp.decl = "rev" -> Reverse(inp.subs) [] OTHER -> loadOrder
+
 \* Chart.CRDObjects: own crds/ files first, then those of the dependencies in Dependencies() order
 CrdOrder(inp, deps) == (IF "p" \in Range(inp.crds) THEN <<"p">> ELSE <<>>) \o SelectSeq(deps, LAMBDA c : c \in Range(inp.crds))
 
@@ -209,14 +216,14 @@ F(inp) ==
            manifest |-> [j \in DOMAIN gs |-> ManEntry(inp, gs[j], w)],
            hooks |-> [j \in DOMAIN hs |-> HookEntry(inp, hs[j], w)],
            notes |-> JoinNotes(SortInts(AnySeq(NotesPassing(inp)))),
-           crds |-> CrdOrder(inp, inp.subs)]
+           crds |-> CrdOrder(inp, DepsAfterProcess(inp, inp.subs))]
 
 \* what the code as it is can produce where it is NOT a function of the input (DESIGN section 9: L8, L21)
 PossibleNotes(inp) == {JoinNotes(o) : o \in SetToSeqs(NotesPassing(inp))}
-PossibleCrds(inp)  == {CrdOrder(inp, o) : o \in SetToSeqs(Range(inp.subs))}
+PossibleCrds(inp)  == {CrdOrder(inp, DepsAfterProcess(inp, o)) : o \in SetToSeqs(Range(inp.subs))}
 
 KnownNotesShape(inp)  == Cardinality(NotesPassing(inp)) >= 2                                     \* L8-notes
-KnownCrdsShape(inp)   == Cardinality(Range(inp.subs) \cap Range(inp.crds)) >= 2                  \* L21
+KnownCrdsShape(inp)   == inp.decl = "none" /\ Cardinality(Range(inp.subs) \cap Range(inp.crds)) >= 2  \* L21
 KnownSchemaShape(inp) == inp.schema \in {"rel", "file"}                                          \* L8-schema
 
 (* ----- C08 as predicates on (input, id sequences) -- not via F -------------- *)
@@ -247,7 +254,7 @@ C08_Classes(inp, man, hooks) ==
   /\ Range(Strip(inp, man)) = PlainIds(inp)
 \* whitespace-only documents vanish; NOTES.txt and partials are never applied (their ranks never appear)
 C08_NothingElse(inp, man, hooks) ==
-  \A id \in Range(man) \cup Range(hooks) : PType[id[1]] = "tpl" /\ DocAt(inp, id).c # "blank"
+  \A id \in Range(man) \cup Range(hooks) : id \in AllDocs(inp) /\ PType[id[1]] = "tpl" /\ DocAt(inp, id).c # "blank"
 \* stable sort by the table: key non-decreasing, original order (path, position) within equal keys
 OrderedBy(inp, s, Key(_)) ==
   \A a, b \in DOMAIN s : a < b =>
